@@ -55,6 +55,14 @@ reg("C07", "reference-model monitor: float64 TD-target formulas vs real DQN.dqn_
     "Trusts the real network modules' forward outputs as inputs of the formulas; 'fresh next action' decided with a deterministic stub policy "
     "plus key sensitivity of the real policy; d loss/d target-parameters is deliberately not asserted (the loss value does depend on them).")
 
+reg("C10", "invariants at hooks + shadow model: harness-defined counting callback/clock MDP observe real learn(); algorithm state inspected after every real iteration() against a shadow schedule model",
+    "Held on every run explored: learn(T) of all five algorithms performs floor(T/(E*S)) iterations (counted by the callback's pure state, by "
+    "ordered iteration events and by the environment's own step clock), iteration_count advances by one, every iteration consumes E*S steps "
+    "(+ per-env warm-up); DQN's target equals, bit for bit, the online snapshot of the last multiple of the interval and is unchanged in between; "
+    "SAC targets follow one Polyak step per iteration (2e-6), the actor changes only on one residue class mod policy_frequency and does change "
+    "there, log_alpha only there and only with autotune. Exploration over sampled configurations and short histories.",
+    "Trusts ordered jax.debug.callback at top level of learn/scan body (not under vmap/cond) and array snapshots of the returned states.")
+
 
 def main():
     props = [json.loads(l) for l in (ROOT / "properties.jsonl").read_text().splitlines() if l.strip()]
